@@ -167,6 +167,10 @@ def judge_summary(ctx, summary, prop):
         if p == prop:
             first = c["path"][-1].get("a", "?") if c["path"] else "?"
             key = "%s|%s|%s|%s" % (b["why"][:60], "v7" if mode["V7"] else ("v6tok" if mode["TokenMode"] else "v6plain"), c["class"], first)
+            seen = ctx.__dict__.setdefault("_seen_keys", {})
+            seen[key] = seen.get(key, 0) + 1
+            if seen[key] > 2:
+                continue        # same finding reached by another schedule: two replay files per key are enough
             if ctx.report(key, b["why"], {"mode": mode, "path": c["path"], "expected": c["expected"], "got": c["got"]}):
                 nviol += 1
         else:
@@ -397,8 +401,12 @@ def plans(prop, tier):
                    ("v6tok-forge-wrap", B(MaxForge=1, InitOnline=True, SeqStart=1023, MaxVital=1, MaxFaults=0, MaxClock=1))]
             dr = [(m, "random", s, 1500) for m in ("v6tok", "v7") for s in (5, 6, 7)]
     elif prop == "C04":
-        mc = [("v6tok-sizes", B(Sizes={0, 1023, 1024}, MaxVital=1, MaxNV=1, MaxFaults=0, MaxClock=1, MaxConnless=1, MaxDisc=1, Reasons={0, 127})),
-              ("v7-sizes", B(V7=True, Sizes={0, 1387, 1388}, MaxVital=1, MaxNV=1, MaxFaults=0, MaxClock=1, MaxConnless=1, MaxDisc=1, Reasons={0, 127}))]
+        mc = [("v6tok-sizes", B(Sizes={1023, 1024}, MaxVital=1, MaxNV=1, MaxFaults=0, MaxClock=1)),
+              ("v7-sizes", B(V7=True, Sizes={1387, 1388}, MaxVital=1, MaxNV=1, MaxFaults=0, MaxClock=1)),
+              ("v6tok-disc", B(Sizes={0}, MaxVital=1, MaxConnless=1, MaxDisc=1, Reasons={0, 127}, MaxFaults=0, MaxClock=1))]
+        if not q:
+            mc += [("v6tok-sizes-L", B(Sizes={0, 1023, 1024}, MaxVital=1, MaxNV=1, MaxFaults=0, MaxClock=1, MaxConnless=1, MaxDisc=1, Reasons={0, 127})),
+                   ("v7-sizes-L", B(V7=True, Sizes={0, 1387, 1388}, MaxVital=1, MaxNV=1, MaxFaults=0, MaxClock=1, MaxConnless=1, MaxDisc=1, Reasons={0, 127}))]
         ex = [("v6tok-limits", B(Sizes={1023, 1024}, MaxVital=1, MaxNV=1, MaxFaults=0, MaxClock=1)),
               ("v7-limits", B(V7=True, Sizes={1387, 1388}, MaxVital=1, MaxNV=1, MaxFaults=0, MaxClock=1)),
               ("v6plain-disc", B(TokenMode=False, Sizes={0}, MaxVital=1, MaxConnless=1, MaxFaults=0, MaxClock=1, MaxDisc=1, Reasons={0, 127})),
@@ -441,4 +449,53 @@ def run_property(ctx, prop):
     # 3. direction B
     results = run_parallel([(drive_and_validate, (ctx, bins, prop, m, sc, ctx.seed * 1000 + sd, ev)) for m, sc, sd, ev in dr], par)
     ctx.coverage["exhaustive"] = False
+    if ctx.tier == "thorough" and prop == "C01":
+        binding_demo(ctx, bins)
     return sums, results
+
+
+def binding_demo(ctx, bins):
+    """Self-test of the binding (thorough tier): a recorded trace is accepted; the same trace with one
+    logged field corrupted, and with one event dropped, must be rejected by ConnTrace."""
+    m = MODES["v6tok"]
+    tr = os.path.join(ctx.workdir, "demo_trace.ndjson")
+    cmd = [os.path.join(bins, "vh-conn"), "drive"] + mode_args(m) + ["--scenario", "random", "--seed", "77", "--events", "150", "--out", tr]
+    rc, out = core.run_harness(cmd, timeout=300)
+    if rc != 0:
+        raise core.ToolError("binding demo: drive failed")
+    cfgp = os.path.join(ctx.workdir, "Trace_demo.cfg")
+    open(cfgp, "w").write(TRACE_CFG % {k: ("TRUE" if v is True else "FALSE" if v is False else v) for k, v in m.items()})
+    lines = open(tr).read().splitlines()
+    results = {}
+
+    def run(name, ls):
+        p = os.path.join(ctx.workdir, "demo_%s.ndjson" % name)
+        open(p, "w").write("\n".join(ls) + "\n")
+        ok, res = core.validate_trace("ConnTrace.tla", cfgp, p, cwd=SPECDIR, timeout=600, heap="4g")
+        results[name] = ok
+        return ok
+    run("original", lines)
+    # corrupt: add 1 ms to the send timer of the client in the middle of the trace
+    k = len(lines) // 2
+    rec = json.loads(lines[k])
+    t = rec["st"]["ep"]["c"]["sendT"]
+    rec["st"]["ep"]["c"]["sendT"] = (t + 1) if t >= 0 else 7
+    run("timer_plus_1ms", lines[:k] + [json.dumps(rec)] + lines[k + 1:])
+    # corrupt: flip the vital flag of the first delivered chunk event
+    for i, l in enumerate(lines):
+        r = json.loads(l)
+        evs = r["out"]["evs"]
+        if evs and evs[0].get("e") == "chunk":
+            evs[0]["v"] = not evs[0]["v"]
+            run("vital_flag_flipped", lines[:i] + [json.dumps(r)] + lines[i + 1:])
+            break
+    # drop one deliver event
+    for i, l in enumerate(lines):
+        if json.loads(l)["act"]["a"] == "deliver":
+            run("deliver_dropped", lines[:i] + lines[i + 1:])
+            break
+    ctx.coverage["binding_demo"] = results
+    bad = [n for n, ok in results.items() if (n == "original") != ok]
+    if bad:
+        raise core.ToolError("binding demonstration failed: %s" % results)
+    return results
